@@ -186,10 +186,11 @@ func IsLetter(value string) bool {
 
 func (es *SearchEngineState) MATCHWORDSTART(not bool) {
 	if es.currentFileOffset == es.reader.Size() {
+		// no word starts at the end of the input
 		if not {
-			es.BACKTRACK()
-		} else {
 			es.NEXT()
+		} else {
+			es.BACKTRACK()
 		}
 		return
 	}
@@ -230,32 +231,17 @@ func (es *SearchEngineState) MATCHWORDSTART(not bool) {
 
 func (es *SearchEngineState) MATCHWORDEND(not bool) {
 	if es.currentFileOffset == 0 {
+		// no word ends at the start of the input
 		if not {
-			es.BACKTRACK()
-		} else {
 			es.NEXT()
-		}
-		return
-	}
-
-	current := es.READ(1)
-	if es.currentFileOffset == es.reader.Size() {
-		if !IsLetter(current) {
-			if not {
-				es.BACKTRACK()
-			} else {
-				es.NEXT()
-			}
 		} else {
-			if not {
-				es.NEXT()
-			} else {
-				es.BACKTRACK()
-			}
+			es.BACKTRACK()
 		}
 		return
 	}
 
+	// at the end of the input current is empty: a word ends there if the last character is a letter
+	current := es.READ(1)
 	previous := es.READAT(es.currentFileOffset-1, 1)
 
 	if !IsLetter(current) && IsLetter(previous) {
